@@ -234,10 +234,18 @@ pub fn any_specs_kind(directed: bool, multi_edges: bool) -> GraphSpecs {
 /// symbolic dedupe strategy alone multiplies the formula 200x (60 M clauses), the other policy
 /// fields are cheap, so the generator case-splits the dedupe strategy.
 pub fn any_specs_kind_dd(directed: bool, multi_edges: bool, dd: u8) -> GraphSpecs {
+    any_specs_kind_dd_mm(directed, multi_edges, dd, 2)
+}
+
+/// `mm`: 0 = Create, 1 = Error, 2 = symbolic. The generator fixes the missing-node strategy when
+/// the operation names a node that is not in the pre-state (a conditional add_node makes the
+/// container shapes symbolic, which costs minutes and > 20 GB in CBMC).
+pub fn any_specs_kind_dd_mm(directed: bool, multi_edges: bool, dd: u8, mm: u8) -> GraphSpecs {
+    let create = if mm == 2 { any_bool() } else { mm == 0 };
     GraphSpecs {
         directed,
         edge_dedupe_strategy: dedupe_of(dd),
-        missing_node_strategy: if any_bool() {
+        missing_node_strategy: if create {
             MissingNodeStrategy::Create
         } else {
             MissingNodeStrategy::Error
